@@ -204,6 +204,9 @@ Section GenPrimsLfu.
      represent) gives None *)
   Definition cell_pair {A B} (a : option A) (b : B) : option (A * B) :=
     match a with Some v => Some (v, b) | None => None end.
+  (* std::make_pair(e.m_value, n) for a value cell (None = the default-constructed value of a never-used node) *)
+  Definition val_pair {V} (o : option V) (n : nat) : option (V * nat) :=
+    match o with Some v => Some (v, n) | None => None end.
 End GenPrimsLfu.
 (* ==== std::map<K, T> and std::list<T> with dynamically created nodes (ut_map.hpp, ut_set.hpp) ====
    A std::map is an association list (its iteration order is never observed); an iterator into it is
